@@ -12,7 +12,9 @@ import (
 	"strconv"
 	"strings"
 
+	"goa.design/goa/v3/dsl"
 	"goa.design/goa/v3/eval"
+	"goa.design/goa/v3/expr"
 
 	"verifharness/internal/lp"
 )
@@ -30,6 +32,8 @@ func main() {
 		gen(*seed, *tier)
 	case "run":
 		lp.Lines(run)
+	case "goaroots":
+		goaRoots()
 	default:
 		os.Exit(2)
 	}
@@ -369,7 +373,7 @@ type troot struct {
 	self *texpr
 }
 
-func (r *troot) EvalName() string { return r.name }
+func (r *troot) EvalName() string   { return r.name }
 func (r *troot) Packages() []string { return nil }
 func (r *troot) DependsOn() []eval.Root {
 	var out []eval.Root
@@ -729,4 +733,63 @@ func run(toks []string) string {
 		return res + " | " + strings.Join(w.log, " ")
 	}
 	return "bad-op"
+}
+
+// goaRoots evaluates one design with the roots exactly as goa's own packages registered them when the process started (what the
+// goa command evaluates with), and prints one line per variant:
+//
+//	order=<roots in evaluation order> typename=<name of the generated collection> views=<n> collection=<0|1> err=<...>
+//
+// The design makes a root that is empty when the evaluation starts gain its content WHILE the design root executes: the result
+// type of Result(CollectionOf(X)) inside a Method is generated during execution and lives in the generated-result-types root,
+// whose DSL has to run after the design root's, before validation and finalization.
+func goaRoots() {
+	var bottle *expr.ResultTypeExpr
+	ok := eval.Execute(func() {
+		dsl.API("cellar", func() {})
+		bottle = dsl.ResultType("application/vnd.verif.bottle", func() {
+			dsl.TypeName("Bottle")
+			dsl.Attributes(func() {
+				dsl.Attribute("id", expr.Int)
+				dsl.Attribute("name", expr.String)
+				dsl.Required("id")
+			})
+			dsl.View("default", func() { dsl.Attribute("id"); dsl.Attribute("name") })
+			dsl.View("tiny", func() { dsl.Attribute("id") })
+		})
+		dsl.Service("cellar", func() {
+			dsl.Method("list", func() {
+				dsl.Result(dsl.CollectionOf(bottle))
+				dsl.HTTP(func() { dsl.GET("/bottles") })
+			})
+		})
+	}, nil)
+	var errText string
+	if !ok {
+		errText = eval.Context.Error()
+	} else if err := eval.RunDSL(); err != nil {
+		errText = err.Error()
+	}
+	var order []string
+	if roots, err := eval.Context.Roots(); err == nil {
+		for _, r := range roots {
+			order = append(order, strings.ReplaceAll(r.EvalName(), " ", "-"))
+		}
+	}
+	typename, views, coll := "~", 0, 0
+	if errText == "" && len(expr.Root.Services) == 1 && len(expr.Root.Services[0].Methods) == 1 {
+		if rt, isRT := expr.Root.Services[0].Methods[0].Result.Type.(*expr.ResultTypeExpr); isRT {
+			typename, views = rt.TypeName, len(rt.Views)
+			if expr.IsArray(rt.Type) {
+				coll = 1
+			}
+			if typename == "" {
+				typename = "~"
+			}
+		}
+	}
+	if errText == "" {
+		errText = "~"
+	}
+	fmt.Printf("order=%s typename=%s views=%d collection=%d err=%s\n", strings.Join(order, ","), typename, views, coll, strings.ReplaceAll(errText, " ", "_"))
 }
